@@ -17,6 +17,7 @@ import (
 	"sort"
 	"strings"
 	"sync"
+	"sync/atomic"
 	"time"
 
 	"github.com/containerd/nri/pkg/adaptation"
@@ -106,6 +107,21 @@ type session struct {
 	closedSeen sync.Map
 	// the last (released) sync block of each caller
 	prevBlock sync.Map
+	// the one unsolicited update of this run that carries no updates at all (0 = not issued yet), and its id
+	emptyTaken int32
+	emptyUID   atomic.Value
+}
+
+// uidOf names an unsolicited update on the runtime's side: its first container id; the run's only empty one by the
+// id its issuer announced
+func (s *session) uidOf(us []*api.ContainerUpdate) string {
+	if len(us) > 0 {
+		return us[0].ContainerId
+	}
+	if v, ok := s.emptyUID.Load().(string); ok {
+		return v
+	}
+	return ""
 }
 
 func (s *session) rnd(n int) int {
@@ -163,11 +179,8 @@ func (s *session) hook(point string, args ...interface{}) {
 		case "register":
 			s.ev("locked", "op", "register", "p", args[1].(string))
 		case "UpdateContainers":
-			uid := ""
-			if us, ok := args[1].([]*api.ContainerUpdate); ok && len(us) > 0 {
-				uid = us[0].ContainerId
-			}
-			s.ev("locked", "op", "update", "uid", uid)
+			us, _ := args[1].([]*api.ContainerUpdate)
+			s.ev("locked", "op", "update", "uid", s.uidOf(us))
 		default:
 			id, ev, ctr := reqIDOf(args[1])
 			if id == rig.ProbePod {
@@ -350,7 +363,17 @@ func (s *session) update(p *rig.Plugin, tag string, i int) {
 	us := []*api.ContainerUpdate{{ContainerId: uid}, {ContainerId: uid + "/2"}}
 	us[0].SetLinuxCPUShares(uint64(100 + i))
 	us[1].IgnoreFailure = true // whatever its flags, what the callback reports as failed goes back unchanged
-	s.ev("upd.call", "p", full, "uid", uid, "ids", []string{uid, uid + "/2"})
+	ids := []string{uid, uid + "/2"}
+	if tag == "u" && atomic.CompareAndSwapInt32(&s.emptyTaken, 0, 1) {
+		// once per run: a request without any update in it (nil / empty list) - it reaches the callback all the same
+		uid = fmt.Sprintf("upd%d-%s-%s%d-empty-%s", s.run, p.Name, tag, i, []string{"ok", "err"}[s.rnd(2)])
+		s.emptyUID.Store(uid)
+		us, ids = nil, []string{}
+		if s.run%2 == 0 {
+			us = []*api.ContainerUpdate{}
+		}
+	}
+	s.ev("upd.call", "p", full, "uid", uid, "ids", ids)
 	type res struct {
 		failed []*api.ContainerUpdate
 		err    error
@@ -370,9 +393,9 @@ func (s *session) update(p *rig.Plugin, tag string, i int) {
 		if x.err != nil {
 			et = x.err.Error()
 		}
-		s.ev("upd.ret", "p", full, "uid", uid, "failed", fids, "err", x.err != nil, "errtext", et, "hung", false)
+		s.ev("upd.ret", "p", full, "uid", uid, "ids", ids, "failed", fids, "err", x.err != nil, "errtext", et, "hung", false)
 	case <-time.After(4 * time.Second):
-		s.ev("upd.ret", "p", full, "uid", uid, "failed", []string{}, "err", true, "errtext", "watchdog: update did not return", "hung", true)
+		s.ev("upd.ret", "p", full, "uid", uid, "ids", ids, "failed", []string{}, "err", true, "errtext", "watchdog: update did not return", "hung", true)
 	}
 }
 
@@ -561,10 +584,7 @@ func (s *session) oneRun(w *rec.Writer) error {
 	updSeen := map[string]int{}
 	var umu sync.Mutex
 	r.OnUpd = func(_ context.Context, us []*api.ContainerUpdate) ([]*api.ContainerUpdate, error) {
-		uid := ""
-		if len(us) > 0 {
-			uid = us[0].ContainerId
-		}
+		uid := s.uidOf(us)
 		ids := []string{}
 		for _, u := range us {
 			ids = append(ids, u.ContainerId)
